@@ -198,6 +198,7 @@ class Check:
         out = []
         sources = []
         self._optional = set()  # rows of members that cannot be opened: allowed, not required
+        self._apath = {}        # printed member path -> world path of its archive
         for n in world["nodes"]:
             if n["type"] == "file" and "zip" in n and is_zip_name(n["path"].rsplit("/", 1)[-1], exts) and "trunc" not in n and not n.get("flip"):
                 sources.append((n["path"], n))
@@ -222,6 +223,7 @@ class Check:
                         pb = [b"false", b"false", b"false"]
                     else:
                         pb = [None, None, None]
+                    self._apath[lz("[%s] %s" % (apath, m["name"]))] = apath
                     if m.get("encrypted"):
                         self._optional.add(lz("[%s] %s" % (apath, m["name"])))
                     out.append((lz("[%s] %s" % (apath, m["name"])), lz("[%s] %s" % (apath.rsplit("/", 1)[-1], m["name"])),
@@ -283,8 +285,8 @@ class Check:
             rows1 = r1.rows(len(cols))
             members = self.member_rows(world, top, nm, exts)
             if maxd:
-                pre_ = lz_path("[" + top + "/")
-                members = [m for m in members if m[0].startswith(pre_) and m[0][len(pre_):m[0].index(b"] ")].count(b"/") + 1 <= maxd]
+                # (the archive's own level, taken from the model: a directory name may contain "] " itself)
+                members = [m for m in members if self._apath[m[0]][len(top) + 1:].count("/") + 1 <= maxd]
             if var in ("where", "where_limit"):
                 members = [m for m in members if int(m[2]) > 9]
             if var == "order_limit":
